@@ -78,6 +78,10 @@ BusyAfter(e, u) ==
     [] e.pt \in {"reg.end", "unreg.end"} -> regBusy \ {u}
     [] OTHER -> regBusy
 
+\* (a tunnel that got a host connection has a relay goroutine, whose last event may come after the handler has returned)
+Done(t) == /\ t.hin = 0 /\ t.wr = {} /\ (t.conn => t.relay = "exited") /\ t.relay # "running" /\ ~t.reg
+           /\ \/ t.h = "unregistered"
+              \/ (t.h = "none" /\ t.out = "none")
 TInit == l = 1 /\ viol = {} /\ cover = {} /\ st = NoTunnels /\ regBusy = {}
 TReset == /\ l <= Len(TraceLog) /\ Line.ev = "reset"
           /\ st' = NoTunnels /\ regBusy' = {} /\ l' = l + 1 /\ UNCHANGED <<viol, cover>>
@@ -90,7 +94,9 @@ THook == /\ l <= Len(TraceLog) /\ Line.ev = "hk"
                        \cup (IF e.pt \in {"reg.end", "unreg.end"} /\ e.nreg >= 0 /\ e.nreg # RegCount(st2) THEN {"G_C11_RegistryHoldsExactlyTheServedTunnels"} ELSE {})
             IN /\ viol' = viol \cup {<<l, g, e.pt, e.role>> : g \in bad}
                /\ cover' = cover \cup {<<e.pt, e.role>>}
-               /\ st' = st2
+               \* a tunnel whose handlers have all returned and that has nothing left (or never got anywhere) is forgotten:
+               \* nothing more can happen to it, and the state stays as small as the number of live tunnels
+               /\ st' = IF e.pt \in {"gw.exit", "relay.exit"} /\ Done(st2[u]) THEN [x \in (DOMAIN st2) \ {u} |-> st2[x]] ELSE st2
                /\ regBusy' = BusyAfter(e, u)
          /\ l' = l + 1
 TNext == TReset \/ THook
